@@ -35,6 +35,8 @@ def program(ops):
             lines.append("f{0} = pool.enqueue(TASK{0})\n".format(i))
         elif op.startswith("await"):
             lines.append(AWAIT.format(i=int(op[5:])))
+        elif op.startswith("joinz"):
+            lines.append("jz{0} = pool.join(NOWAIT)\n".format(op[5:]))
         elif op.startswith("joint"):
             lines.append("jt{0} = pool.join(TMO)\n".format(op[5:]))
         elif op.startswith("join"):
